@@ -807,7 +807,7 @@ func replaySched(line string) (string, error) {
 }
 
 func init() {
-	register(&Stream{Name: "sched", Run: runSched, Replay: replaySched})
+	register(&Stream{Name: "sched", Run: func(c *Ctx) { timingOracles(c); runSched(c) }, Replay: replaySched})
 }
 
 func schedWatchdog() time.Duration {
